@@ -70,24 +70,26 @@ fn splitmix(x: &mut u64) -> u64 {
 /// One measured step on a fresh environment. `layout[i]` = kind of the i-th submitted instruction
 /// (0 new ask, 1 new bid below the quote, 2 cancel of a resting order, 3 crossing re-price, 4 cancel of
 /// the most recent order created earlier in this same batch - or a new ask if there is none, 5 cancel of an order
-/// that was already cancelled in an earlier step).
+/// that was already cancelled in an earlier step, 6 modification of a resting order to an off-grid price).
 /// Returns the processed position of every submitted instruction; `None` for a kind-4 cancel that was
 /// processed before the placement it refers to (it is then a no-op and leaves no timestamp).
 fn measured_step(n: usize, market: bool, trading: bool, step_size: u64, layout: &[u8], rng: &mut Xoroshiro128StarStar) -> Result<Vec<Option<usize>>, String> {
     let assets = if market { 2 } else { 0 };
     let na = assets.max(1);
-    let ticks = [1u32, 1, 1, 1];
+    // tick 2 (every generated price is doubled): an odd price is off the grid
+    const TK: u32 = 2;
+    let ticks = [TK, TK, TK, TK];
     let mut env: Box<dyn DynEnv> = new_env(assets, 1, 0, &ticks, step_size.max(1), true);
     // warm-up: the quote and one resting ask per future cancel / re-price, processed with a fixed generator
     let mut warm = Xoroshiro128StarStar::seed_from_u64(1);
     for a in 0..na {
-        env.place_order(a, true, 1 << 30, 9, Some(MID - 5)).map_err(|e| e)?;
+        env.place_order(a, true, 1 << 30, 9, Some((MID - 5) * TK)).map_err(|e| e)?;
     }
     let mut pool: Vec<(usize, usize)> = vec![];
     for (i, k) in layout.iter().enumerate() {
-        if *k == 2 || *k == 3 {
+        if *k == 2 || *k == 3 || *k == 6 {
             let a = i % na;
-            let id = env.place_order(a, false, 1, 7, Some(MID + 1 + (i as u32 % 10))).map_err(|e| e)?;
+            let id = env.place_order(a, false, 1, 7, Some((MID + 1 + (i as u32 % 10)) * TK)).map_err(|e| e)?;
             pool.push(id);
         }
     }
@@ -97,7 +99,7 @@ fn measured_step(n: usize, market: bool, trading: bool, step_size: u64, layout: 
     for (i, k) in layout.iter().enumerate() {
         if *k == 5 {
             let a = i % na;
-            dead.push(env.place_order(a, false, 1, 8, Some(MID + 12 + (i as u32 % 5))).map_err(|e| e)?);
+            dead.push(env.place_order(a, false, 1, 8, Some((MID + 12 + (i as u32 % 5)) * TK)).map_err(|e| e)?);
         }
     }
     // spread the warm-up over several steps so that it fits the step size
@@ -124,12 +126,12 @@ fn measured_step(n: usize, market: bool, trading: bool, step_size: u64, layout: 
         let k = if *k == 4 && last_new.is_none() { 0 } else { *k };
         match k {
             0 => {
-                let id = env.place_order(a, false, 1 + (i as u32 % 3), 1, Some(MID + 1 + (i as u32 % 10)))?;
+                let id = env.place_order(a, false, 1 + (i as u32 % 3), 1, Some((MID + 1 + (i as u32 % 10)) * TK))?;
                 readers.push((0, id));
                 last_new = Some(id);
             }
             1 => {
-                let id = env.place_order(a, true, 1 + (i as u32 % 3), 2, Some(MID - 15 + (i as u32 % 9)))?;
+                let id = env.place_order(a, true, 1 + (i as u32 % 3), 2, Some((MID - 15 + (i as u32 % 9)) * TK))?;
                 readers.push((0, id));
                 last_new = Some(id);
             }
@@ -145,6 +147,14 @@ fn measured_step(n: usize, market: bool, trading: bool, step_size: u64, layout: 
                 env.cancel_order(id);
                 readers.push((2, id));
             }
+            6 => {
+                // a modification to a price that is OFF the tick grid: the book ignores it when it is processed, but it
+                // is an instruction of the batch like any other and takes its slot
+                let id = pool[p];
+                p += 1;
+                env.modify_order(id, Some((MID + 30) * TK + 1), None);
+                readers.push((3, id));
+            }
             5 => {
                 let id = dead[d];
                 d += 1;
@@ -155,7 +165,7 @@ fn measured_step(n: usize, market: bool, trading: bool, step_size: u64, layout: 
                 let id = pool[p];
                 p += 1;
                 if trading {
-                    env.modify_order(id, Some(MID - 5), None);
+                    env.modify_order(id, Some((MID - 5) * TK), None);
                 } else {
                     env.cancel_order(id);
                 }
@@ -582,7 +592,7 @@ pub fn parts(tier: Tier) -> (Vec<Part<Case>>, String) {
             make: Box::new(|| {
                 (prop_oneof![4 => 2usize..=8, 1 => Just(16usize), 1 => Just(32usize), 1 => Just(64usize)], any::<bool>(), any::<u64>())
                     .prop_flat_map(|(n, market, seed)| {
-                        (proptest::collection::vec(0u8..6, n), proptest::collection::vec(0u8..6, n), 0u8..5, prop_oneof![5 => Just(1_000u64), 1 => Just(n as u64), 1 => Just(n as u64 - 1), 1 => 1u64..=(n as u64 / 2).max(1)])
+                        (proptest::collection::vec(0u8..7, n), proptest::collection::vec(0u8..7, n), 0u8..5, prop_oneof![5 => Just(1_000u64), 1 => Just(n as u64), 1 => Just(n as u64 - 1), 1 => 1u64..=(n as u64 / 2).max(1)])
                             .prop_map(move |(layout_a, layout_b, t, step_size)| Case::Shuffle(ShuffleCase::Det { n, market, seed, layout_a, layout_b, trading: t != 0, step_size }))
                     })
                     .boxed()
@@ -592,6 +602,6 @@ pub fn parts(tier: Tier) -> (Vec<Part<Case>>, String) {
     };
     (
         vec![det, uniform],
-        "Two kinds of case. (1) determinism / content independence: one generator state, one batch size, two generated batches of different content and kind layout (new asks, new bids, cancels of resting orders, crossing re-prices, cancels of an order placed earlier in the same batch, cancels of an order that was already finished) on fresh environments: the map submission index -> processed position must be identical for both batches wherever both reveal it (a same-batch cancel processed before its placement leaves no timestamp) and for a repeated run (non-trivial: batch with >= 2 instruction kinds). (2) uniformity campaign: for one (batch size, Env or MarketEnv<2>, generator freshly seeded per step or one continuing stream) the processed positions of N seeded steps are recovered from arrival / end timestamps and the count of each of the n! permutations (n <= 6), each (instruction, position) cell and each ordered pair must lie within the Bernstein deviation for alpha = 1e-9 divided by the number of campaigns, with a union bound over all cells; in addition, for windows of the first / last k = 3..10 processed positions whose number of outcomes K = n!/(n-k)! is large, the number of steps that repeat an earlier step's tuple of instructions at those positions must stay below an exact Chernoff limit (a shuffle that derives several swap indices from one generator word has too few distinct outcomes in such a window although every position and pair table is flat); half of each campaign's alpha goes to the cell tests and half to the window tests (non-trivial: campaign with mixed instruction kinds). Every step also checks that the positions are a bijection of 0..n.".to_string(),
+        "Two kinds of case. (1) determinism / content independence: one generator state, one batch size, two generated batches of different content and kind layout (new asks, new bids, cancels of resting orders, crossing re-prices, cancels of an order placed earlier in the same batch, cancels of an order that was already finished, modifications to an off-grid price) on fresh environments: the map submission index -> processed position must be identical for both batches wherever both reveal it (a same-batch cancel processed before its placement leaves no timestamp) and for a repeated run (non-trivial: batch with >= 2 instruction kinds). (2) uniformity campaign: for one (batch size, Env or MarketEnv<2>, generator freshly seeded per step or one continuing stream) the processed positions of N seeded steps are recovered from arrival / end timestamps and the count of each of the n! permutations (n <= 6), each (instruction, position) cell and each ordered pair must lie within the Bernstein deviation for alpha = 1e-9 divided by the number of campaigns, with a union bound over all cells; in addition, for windows of the first / last k = 3..10 processed positions whose number of outcomes K = n!/(n-k)! is large, the number of steps that repeat an earlier step's tuple of instructions at those positions must stay below an exact Chernoff limit (a shuffle that derives several swap indices from one generator word has too few distinct outcomes in such a window although every position and pair table is flat); half of each campaign's alpha goes to the cell tests and half to the window tests (non-trivial: campaign with mixed instruction kinds). Every step also checks that the positions are a bijection of 0..n.".to_string(),
     )
 }
